@@ -141,6 +141,7 @@ class File:
     basename: Optional[str] = None  # file name without extension; default proto_name
     items: List[Any] = field(default_factory=list)  # Import | Option | Const | Alias | Enum | Message
     comment: Optional[str] = None
+    abs_imports: bool = False  # write this file's import paths as absolute paths (known only when the schema is written to disk)
     subdir: str = ""  # directory of the file below the schema root ("" | "lib" | "lib/inner"): import paths are relative to the importing file
 
     def __post_init__(self) -> None:
